@@ -51,6 +51,8 @@ def run(P, R, tier):
     point_like(P, R)
     reject_and_shortcut(P, R)
     fallback(P, R)
+    from rules import common as _common
+    _common.no_fastmath(P, R, 'C01.k', ['spatialpandas.geometry._algorithms.intersection', 'spatialpandas.geometry._algorithms.orientation'])
     orientation_table(P, R)
     box_edges(P, R)
 
